@@ -3,6 +3,7 @@
 package lungo
 
 import (
+	"sort"
 	"sync"
 	"time"
 )
@@ -215,3 +216,14 @@ func verifTook(site string, n int) {
 // of n bytes so that the flush arithmetic can be explored at small scale. It
 // must be called before the first Write.
 func (s *UploadStream) VerifSetBufferSize(n int) { s.buffer = make([]byte, n) }
+
+// VerifStreamLess lets the harness fix the order in which Engine.Close walks
+// the open streams (they are collected from a map, whose iteration order is
+// random).
+var VerifStreamLess func(a, b *Stream) bool
+
+func verifOrderStreams(streams []*Stream) {
+	if less := VerifStreamLess; less != nil {
+		sort.SliceStable(streams, func(i, j int) bool { return less(streams[i], streams[j]) })
+	}
+}
